@@ -112,7 +112,11 @@ func VerifC01Pipeline() {
 		u := vsymUint32("uid0")
 		vsymAssume(u > prev)
 		prev = u
-		fl := verifFlagChoices[vsymChoice("flags0", len(verifFlagChoices))]
+		nfl := len(verifFlagChoices)
+		if vsymParam("fam") == 3 {
+			nfl = 2
+		}
+		fl := verifFlagChoices[vsymChoice("flags0", nfl)]
 		if err := st.snap.appendMessage(pool[i], imap.UID(u), verifFlagSet(fl)); err != nil {
 			panic(err)
 		}
@@ -123,8 +127,11 @@ func VerifC01Pipeline() {
 	maxQueuedUID := prev
 	expungeQueued := 0
 	var usedUIDs []uint32
-	fam := vsymParam("fam") // 0: all step kinds, 1: add/remove/flush, 2: flags/remove/flush
-	kinds := [][]int{{0, 1, 2, 3}, {0, 1, 3}, {2, 1, 3}}[fam]
+	// 0: all step kinds, 1: add/remove/flush, 2: flags/remove/flush,
+	// 3: plain flag changes and removals only (one NOOP at the end: what response.Merge makes of one long stream)
+	fam := vsymParam("fam")
+	kinds := [][]int{{0, 1, 2, 3}, {0, 1, 3}, {2, 1, 3}, {2, 1}}[fam]
+	mailbox := newMailbox(mbox, st, st.snap)
 
 	tx := &verifMiniTx{d: user.db.(*verifMiniDB)}
 	for step := 0; step < k; step++ {
@@ -175,11 +182,18 @@ func VerifC01Pipeline() {
 			expungeQueued++
 			vsymCover("expunge-queued")
 		case 2: // flags of a message change
-			which := vsymChoice("fetchWhich", len(pool))
-			op := vsymChoice("fetchOp", 3)
+			var which, op int
+			var asUID, other bool
+			if fam == 3 {
+				which = vsymChoice("fetchWhich", n)
+				op = []int{FetchFlagOpAdd, FetchFlagOpSet}[vsymChoice("fetchOp", 2)]
+			} else {
+				which = vsymChoice("fetchWhich", len(pool))
+				op = vsymChoice("fetchOp", 3)
+				asUID = vsymBool("fetchUID")
+				other = vsymBool("fetchOtherMbox")
+			}
 			fl := []int{vfSeen, vfDeleted}[vsymChoice("fetchFlags", 2)]
-			asUID := vsymBool("fetchUID")
-			other := vsymBool("fetchOtherMbox")
 			if err := st.PushResponder(ctx, tx, NewFetch(pool[which].InternalID, verifFlagSet(fl), asUID, false, other, op)); err != nil {
 				panic(err)
 			}
@@ -188,6 +202,7 @@ func VerifC01Pipeline() {
 			permit := vsymBool("permitExpunge")
 			before := st.snap.len()
 			held := st.ExpungeIssuedVerif()
+			issued := mailbox.ExpungeIssued() // what handleFetch/handleStore/handleSearch put into their OK
 			res, err := st.flushResponses(ctx, permit)
 			if err != nil {
 				vsymCover("flush-error")
@@ -205,6 +220,7 @@ func VerifC01Pipeline() {
 				if held {
 					vsymCover("expunge-held-back")
 				}
+				vsymAssert(!st.ExpungeIssuedVerif() || issued, "a FETCH/STORE/SEARCH that holds back a removal says [EXPUNGEISSUED]")
 			} else {
 				vsymAssert(len(st.res) == 0, "a flush that permits expunge empties the queue")
 			}
